@@ -50,7 +50,8 @@ def shards(tier):
     sh = []
     for form in ("text", "legacy", "ais"):
         for i in range(2):
-            sh.append({"kind": "inv", "form": form, "n": 450 * k})
+            # dates are instants: the process time zone is configuration that must not matter
+            sh.append({"kind": "inv", "form": form, "n": 450 * k, "tz": ("UTC", "Australia/Lord_Howe")[i]})
     for i in range(2):
         sh.append({"kind": "anim", "n": 700 * k})
     for i in range(3):
@@ -68,6 +69,10 @@ def run_shard(ctx, shard):
     kind = shard["kind"]
     if kind == "inv":
         form = shard["form"]
+        import os
+        import time
+        os.environ["TZ"] = shard.get("tz", "UTC")
+        time.tzset()
 
         def body(case):
             nodes = case[1]
@@ -140,7 +145,14 @@ def run_shard(ctx, shard):
 def replay(ctx, case):
     part, payload = case[0], case[1]
     if part in ("text", "legacy", "ais"):
-        return inv.laws(part, payload)
+        import os
+        import time
+        res = []
+        for tz in ("UTC", "Australia/Lord_Howe"):
+            os.environ["TZ"] = tz
+            time.tzset()
+            res.extend(r for r in inv.laws(part, payload) if r not in res)
+        return res
     if part == "anim":
         return anim.laws(payload)
     if part == "mesh":
